@@ -16,10 +16,10 @@ def allOpdStrToReg (s : Instr) : Instr :=
   let f (o : Operand) : Operand := { o with reg := strToReg o.str, index := strToReg o.sib }
   { s with opd0 := f s.opd0, opd1 := f s.opd1, opd2 := f s.opd2 }
 
-/-- the zero-initialised record with the option byte and `mod_disp = MOD24`; under SMART the NASM
-    bit is cleared first (src/parser.c:69) -/
-def initInstr (opt : Nat) : Instr :=
-  { opt := if band opt c_SMART_MOV_IMM then opt &&& (255 - c_NASM_MOV_IMM) else opt, modDisp := c_MOD24 }
+/-- the zero-initialised record with `mod_disp = MOD24`.  (The option byte is not part of the
+    record in the model: it is passed to the six places that read it, see `effNasm`; under SMART
+    the C code clears the NASM bit here, src/parser.c:69.) -/
+def initInstr : Instr := { modDisp := c_MOD24 }
 
 /-- the operand-kind string `opd_type` (a C string: it ends at the first unused operand) -/
 def opdTypeString (s : Instr) : Str :=
@@ -42,8 +42,8 @@ def lexAfterTok (s : Instr) : R Instr :=
   if key == c_INSTR_ERROR then .error .fail else .ok { s with key := key }
 
 /-- `line_to_instr` up to and including `str_to_instr_key` — the lexing half. -/
-def lexLine (opt : Nat) (filtered : Str) : R Instr :=
-  match instrTok (initInstr opt) filtered with
+def lexLine (filtered : Str) : R Instr :=
+  match instrTok initInstr filtered with
   | .error e => .error e
   | .ok s => lexAfterTok s
 
@@ -78,23 +78,23 @@ def branch32 (s : Instr) : Instr :=
   then { s with cons := s.cons &&& c_MAX_UNSIGNED_32BIT } else s
 
 /-- encode only when the first operand has a register or index (src/parser.c:117) -/
-def encodeIfRegs (s : Instr) : R Instr :=
+def encodeIfRegs (opt : Nat) (s : Instr) : R Instr :=
   if s.opd0.reg != c_reg_none || s.opd0.index != c_reg_none then
-    encodeOperands (encodeImm (encodeOffset s))
+    encodeOperands opt (encodeImm opt (encodeOffset s))
   else .ok s
 
 /-- register check, 32-bit branch displacement, encoding, push imm8/imm32 selection -/
-def resolveRest (s : Instr) : R Instr :=
+def resolveRest (opt : Nat) (s : Instr) : R Instr :=
   if checkRegistersFail s then .error .fail else
-  match encodeIfRegs (branch32 s) with
+  match encodeIfRegs opt (branch32 s) with
   | .error e => .error e
   | .ok s => .ok (pushAdjust s)
 
 /-- the rest of `line_to_instr`: branch width, register check, encoding. -/
-def resolveLine (s : Instr) : R Instr :=
+def resolveLine (opt : Nat) (s : Instr) : R Instr :=
   match resolveBranch s with
   | .error e => .error e
-  | .ok s => resolveRest (selectShort s)
+  | .ok s => resolveRest opt (selectShort s)
 
 /-- What one line of text turns into. -/
 inductive LineOut
@@ -111,10 +111,10 @@ def assembleLine (opt : Nat) (text : Str) : R LineOut × Nat :=
     let n := lineLen text i
     if isSkipped f then (.ok .skip, n)
     else
-      match lexLine opt f with
+      match lexLine f with
       | .error e => (.error e, n)
       | .ok s =>
-        match resolveLine s with
+        match resolveLine opt s with
         | .error e => (.error e, n)
         | .ok s => (.ok (.code (assembleAsm s)), n)
 
